@@ -53,7 +53,7 @@ def generate(prop, seed, tier):
     ops = []
     n_ops = S.int(2, 4)
     for k in range(n_ops):
-        op = S.wpick([("transforms", 1), ("pushforward", 2), ("draw", 2), ("cond_sample", 4), ("cond_cdf", 1.5), ("cond_icdf", 2), ("iform", 2.5), ("cache", 0.8), ("cdf_empirical", 0.3 if tier == "thorough" else 0.1), ("skew", 0.7), ("sample_law", 0.8), ("cache_iform_sample", 0.8), ("cond_sample_small", 0.7), ("empirical_with_sample", 0.7)])
+        op = S.wpick([("transforms", 1), ("pushforward", 2), ("draw", 2), ("cond_sample", 4), ("cond_cdf", 1.5), ("cond_icdf", 2), ("iform", 2.5), ("cache", 0.8), ("cdf_empirical", 0.5 if tier == "thorough" else 0.35), ("skew", 0.7), ("sample_law", 0.8), ("cache_iform_sample", 0.8), ("cond_sample_small", 0.7), ("empirical_with_sample", 0.7)])
         if op == "sample_law":
             ops.append({"op": "sample_law", "pin": S.sub("slpin", k)})
             continue
@@ -106,7 +106,7 @@ def generate(prop, seed, tier):
         elif op == "cache":
             ops.append({"op": op, "letter": S.pick(["A", "B", "C"]), "n": 1500, "dseed": S.sub("cd", k), "pin": S.sub("kpin", k)})
         elif op == "cdf_empirical":
-            ops.append({"op": op, "q": [core.r6(S.uni(0.3, 0.9)), core.r6(S.uni(0.3, 0.9))], "pin": S.sub("epin", k)})
+            ops.append({"op": op, "q": [core.r6(S.uni(0.3, 0.9)), core.r6(S.uni(0.3, 0.9))], "pin": S.sub("epin", k), "on_copy": S.chance(0.5), "copy_scale": core.r6(S.uni(1.3, 1.7))})
         else:
             ops.append({"op": "skew", "k": S.sub("sk", k)})
     return {"engine": NAME, "property": prop, "seed": seed, "universe": uni, "ops": ops}
@@ -596,6 +596,15 @@ def _execute(prop, scen):
                 if not np.allclose(got, own, rtol=0, atol=1e-12):
                     run.violate("I6-empirical-cdf-of-supplied-sample", "sample-argument", {"n": op["n"], "empirical_cdf": got.tolist(), "proportion_in_sample": own.tolist(), "step": si})
                     return run
+                if op["n"] <= 150000:
+                    # the caller's buffer refilled with another sample (the same array object, new contents)
+                    smp[...] = np.asarray(api(t.draw_sample, op["n"]), dtype=float)[::-1] * np.array([1.1, 0.95])
+                    got2 = np.asarray(api(t.empirical_cdf, pts_arg, sample=smp), dtype=float)
+                    own2 = np.array([np.mean(np.all(smp <= p_, axis=1)) for p_ in pts])
+                    run.count("probe:empirical-cdf-with-refilled-buffer")
+                    if not np.allclose(got2, own2, rtol=0, atol=1e-12):
+                        run.violate("I6-empirical-cdf-of-supplied-sample", "sample-argument/refilled-buffer", {"n": op["n"], "empirical_cdf": got2.tolist(), "proportion_in_sample": own2.tolist(), "step": si})
+                        return run
             elif k == "sample_law":
                 smp = np.asarray(api(lambda: t.sample), dtype=float)
                 run.event(k, None, [smp.shape, float(smp[0, 0])])
@@ -656,6 +665,23 @@ def _execute(prop, scen):
                 run.count("probe:empirical-cdf-after-refit")
                 if not abs(e2 - exact) <= eps_dkw(1_000_000) + 2e-4:
                     run.violate("I6-cache-stale-after-fit", "cache", {"empirical_cdf_after_fit": e2, "exact_cdf_of_refitted_model": exact, "empirical_cdf_before_fit": e1, "tolerance": eps_dkw(1_000_000) + 2e-4, "step": si})
+                    return run
+            elif k == "cdf_empirical" and op.get("on_copy"):
+                # the user works on with a deep copy whose wave heights he rescales: the copy's cdf is the
+                # integral of the copy's own density (judged against a sample drawn from the copy)
+                t2 = copy.deepcopy(t)
+                d0 = t2.model.distributions[0]
+                d0.alpha = float(d0.alpha) * op["copy_scale"]
+                smp2 = np.asarray(api(t2.draw_sample, 200000), dtype=float)
+                h = float(np.quantile(smp2[:, 0], op["q"][0]))
+                tz = float(np.quantile(smp2[:, 1], op["q"][1]))
+                c = float(np.asarray(api(t2.cdf, [h, tz]))[0])
+                e = float(np.mean((smp2[:, 0] <= h) & (smp2[:, 1] <= tz)))
+                run.event(k, [op["q"], "copy"], [c, e])
+                run.count("dkw_comparisons")
+                run.count("probe:cdf-of-a-modified-deep-copy")
+                if not abs(c - e) <= eps_dkw(200000) + 1e-4:
+                    run.violate("I2-cdf-vs-empirical", "cdf-of-a-modified-deep-copy", {"cdf": c, "proportion_in_own_sample": e, "scale_of_hs_in_the_copy": op["copy_scale"], "step": si})
                     return run
             elif k == "cdf_empirical":
                 h = float(ref.hs_ppf(op["q"][0]))
